@@ -4,8 +4,17 @@
 quick/thorough: random histories over trees of <= 8 windows on small terminals: windows inside, partly outside and wholly
 outside their parents, hidden subtrees, every creation flag; create/close/show/hide/restack/move/resize/expose/scroll/
 terminal-resize interleaved with flushes.  --prop C01: well-behaved handlers (paint content), geometry changes followed by
-the exposes the property's proviso demands.  --prop C02: adversarial handlers drawing anywhere; every window draws with the
-foreground tag id+1 so that the writer of a cell can be identified on the grid.
+the exposes the property's proviso demands.  --prop C02: adversarial handlers drawing anywhere - erases, texts, characters,
+skips, clears, line segments (hline_at / vline_at), copyrect / moverect within the buffer, save / savepen / restore (balanced,
+left open, one restore too many), setpen with reverse video; every window draws with the foreground tag id+1 so that the
+writer of a cell can be identified on the grid.  Scenarios mixed in: a window with a border of line segments and a window
+behind it (parent or lower sibling) ruling lines through the border's rows and columns; a short text at the start of a row and
+the rest of the row pulled a few columns left over its end (the copy overwrites the start of the run it walks), then more
+drawing; a label under savepen / restore followed by a clear of everything.
+One history in twenty runs on the library's xterm driver (scroll oracle x; bytes interpreted by the VT model in the driver):
+1-4 lines of 65-140 columns, windows exactly 64 / 128 columns wide or starting at column 64 / 128, reverse-video pens, handlers
+that blank whole windows (the driver writes reverse-video blanks as spaces in slices of 64); the background colour is the
+writer tag there.
 exhaustive: every history of <= 4 operations from a fixed alphabet over a fixed tree of 3 windows, each followed by a flush.
 
 `scrollch w d r` is the compound step of Props.C01.scrollch_step_full: tickit_window_scroll_with_children, then the
